@@ -20,7 +20,10 @@ Inductive hphase :=
 | HEnded           (* task finished, not yet joined *)
 | HCancelled.      (* task cancelled by runtime teardown before it removed its entry *)
 
-Record handler := mkH { h_id : N; h_peer : N; h_reqs : nat; h_ph : hphase }.
+(** [h_backlog]: request streams that have reached this end of the connection and wait to be
+    accepted by the handler's loop; they can still be accepted after the endpoint was closed
+    (seen in the implementation's traces), new ones cannot arrive then. *)
+Record handler := mkH { h_id : N; h_peer : N; h_reqs : nat; h_backlog : nat; h_ph : hphase }.
 
 Inductive ckind := CConnect | CShutdown.
 Inductive call :=
@@ -49,6 +52,7 @@ Inductive label :=
 | InboundDone (ok : bool) (peer : N)
 | DialDone (ok : bool) (peer : N)   (* the oldest InDial call completes *)
 | Disconnect (peer : N)
+| StreamArrive (h : N)   (* a request stream of the peer reaches this end *)
 | ReqStart (h : N) | ReqEnd (h : N)
 | HExit (h : N)           (* handler's accept loop ends: remove own entry, start draining *)
 | HAbort (h : N)          (* draining: in-flight request tasks aborted and awaited *)
@@ -71,8 +75,9 @@ Definition upd_h (i : N) (f : handler -> handler) (l : list handler) : list hand
 Definition del_h (i : N) (l : list handler) : list handler :=
   filter (fun h => negb (h_id h =? i)) l.
 
-Definition set_ph (h : handler) (p : hphase) : handler := mkH (h_id h) (h_peer h) (h_reqs h) p.
-Definition set_reqs (h : handler) (n : nat) : handler := mkH (h_id h) (h_peer h) n (h_ph h).
+Definition set_ph (h : handler) (p : hphase) : handler := mkH (h_id h) (h_peer h) (h_reqs h) (h_backlog h) p.
+Definition set_reqs (h : handler) (n : nat) : handler := mkH (h_id h) (h_peer h) n (h_backlog h) (h_ph h).
+Definition set_backlog (h : handler) (n : nat) : handler := mkH (h_id h) (h_peer h) (h_reqs h) n (h_ph h).
 
 Definition del_entry_peer (p : N) (l : list (N * N)) := filter (fun e => negb (fst e =? p)) l.
 Definition del_entry_exact (p i : N) (l : list (N * N)) :=
@@ -84,7 +89,7 @@ Definition has_entry (p i : N) (l : list (N * N)) : bool :=
     until it notices the close) and spawns its handler. *)
 Definition add_peer (s : state) (peer : N) : state :=
   mkS (ph s) (inbound s)
-      (hands s ++ [mkH (next_id s) peer 0 HRunning])
+      (hands s ++ [mkH (next_id s) peer 0 0 HRunning])
       (del_entry_peer peer (entries s) ++ [(peer, next_id s)])
       (calls s)
       (lost_events s + (if existsb (fun e => fst e =? peer) (entries s) then 1 else 0))
@@ -168,14 +173,25 @@ Definition step (s : state) (l : label) : option state :=
       then Some (mkS (ph s) (inbound s) (hands s) (del_entry_peer peer (entries s)) (calls s)
                      (S (lost_events s)) (endpoint_closed s) (next_id s))
       else None
-  | ReqStart i =>
+  | StreamArrive i =>
       match find_h i (hands s) with
       | Some h => match h_ph h with
                   | HRunning =>
-                      (* no new streams are accepted once the endpoint has been closed *)
+                      (* nothing new reaches a connection of an endpoint that has been closed *)
                       if endpoint_closed s then None
-                      else Some (set_hands s (upd_h i (fun h => set_reqs h (S (h_reqs h))) (hands s)))
+                      else Some (set_hands s (upd_h i (fun h => set_backlog h (S (h_backlog h))) (hands s)))
                   | _ => None
+                  end
+      | None => None
+      end
+  | ReqStart i =>
+      match find_h i (hands s) with
+      | Some h => match h_ph h, h_backlog h with
+                  | HRunning, S b =>
+                      (* the accept loop takes a waiting stream and spawns its request task: also after the
+                         endpoint was closed, for streams that had arrived before *)
+                      Some (set_hands s (upd_h i (fun h => set_reqs (set_backlog h b) (S (h_reqs h))) (hands s)))
+                  | _, _ => None
                   end
       | None => None
       end
@@ -277,7 +293,7 @@ Definition answered (c : call) : bool := match c with Answered _ => true | _ => 
 Definition rank (p : mphase) : nat :=
   match p with MLoop => 6 | MClosing => 5 | MWaitHandlers => 4 | MAssert => 3 | MWaitIdle => 2 | MDone => 0 | MPanicked => 0 end.
 Definition weight (h : handler) : nat :=
-  match h_ph h with HRunning => 3 + h_reqs h | HDraining => 2 + h_reqs h | HEnded => 1 | HCancelled => 1 end.
+  match h_ph h with HRunning => 3 + h_reqs h + 2 * h_backlog h | HDraining => 2 + h_reqs h | HEnded => 1 | HCancelled => 1 end.
 Fixpoint sum_weight (l : list handler) : nat :=
   match l with [] => 0 | h :: r => weight h + sum_weight r end.
 Definition meas (s : state) : nat := rank (ph s) + inbound s + length (entries s) + sum_weight (hands s).
